@@ -328,6 +328,19 @@ def call_marker(it, path, pos, kw):
     if path.startswith("warnings.") or path.startswith("logging."):
         ctx.dropped.add("warnings/logging calls: no-op")
         return None
+    if path in ("scipy.sparse.linalg.eigsh", "scipy.linalg.eigh", "scipy.linalg.eig"):
+        # the eigen-solvers: (w, v) with one value and one column per requested / available eigenpair; NOTHING is assumed about
+        # the values (clauses proved over them hold for whatever the solver returns)
+        y = pos[0]
+        if not (isinstance(y, Arr) and y.ndim == 2):
+            raise PathAbort(f"{path} of a non-matrix", ctx.cur_line)
+        n_ = y.shape[0]
+        k_ = pos[1] if (path.endswith("eigsh") and len(pos) > 1) else (kw.get("k", 6) if path.endswith("eigsh") else n_)
+        ctx.trusted.add(f"external:{path} returns (w, v): w of length k, v with one row per row of the matrix and k columns (values arbitrary)")
+        w = Arr.fresh("eigw", (k_,), "real")
+        v = Arr.fresh("eigv", (n_, k_), "real")
+        ctx.log_ghost("eig", dict(w=w, v=v, k=k_, n=n_, solver=path))
+        return (w, v)
     if path == "accumarray":
         return N.accumarray(it, *pos, **kw)
     if path == "ttb.khatrirao":
@@ -526,6 +539,24 @@ def call_np(it, name, pos, kw):
         return N.unravel_index(it, pos[0], pos[1], kw.get("order", "C"))
     if name == "insert":
         return N.np_insert(it, *pos, **kw)
+    if name == "argmax":
+        a = _arr(it, pos[0])
+        axis = kw.get("axis", pos[1] if len(pos) > 1 else None)
+        if a.ndim == 2 and axis == 0:
+            a_s = N.snap(a)
+            rows, cols = a_s.shape
+            ctx.raise_unless(T.ge(rows, 1), "ValueError", "attempt to get argmax of an empty sequence")
+            am = T.fresh_fun("argmax", z3.IntSort(), z3.IntSort())
+            i, j = T.fresh_int("i"), T.fresh_int("j")
+            ctx.assume(T.ForAll([j], z3.Implies(z3.And(0 <= j, T.lt(j, cols)), z3.And(0 <= am(j), T.lt(am(j), rows))), [am(j)]),
+                       trusted="numpy:argmax(axis=0): a row position of a largest entry of every column")
+            ctx.assume(T.ForAll([i, j], z3.Implies(z3.And(0 <= i, T.lt(i, rows), 0 <= j, T.lt(j, cols)),
+                                                   T.tz(T.as_real(a_s.fn(i, j))) <= T.tz(T.as_real(a_s.fn(am(j), j)))), [a_s.fn(i, j)]))
+            r = Arr((cols,), lambda j_: am(T.tz(j_)), "int")
+            r.in_range_of = rows
+            ctx.log_ghost("argmax", dict(am=am, src=a_s))
+            return r
+        raise PathAbort("np.argmax form", ctx.cur_line)
     if name == "linalg.norm":
         return N.np_vector_norm(ctx, _arr(it, pos[0]), kw.get("ord", pos[1] if len(pos) > 1 else None))
     if name == "sqrt":
@@ -693,6 +724,8 @@ def call_arr_method(it, a: Arr, name, pos, kw):
     if name == "reshape":
         shape = pos[0] if len(pos) == 1 and isinstance(pos[0], (tuple, list)) else tuple(pos)
         return N.reshape(it, a, shape, kw.get("order", "C"))
+    if name == "toarray" and a.ndim == 2:
+        return a      # a dense stand-in of a sparse matrix (abstract callee results): same entries
     if name == "tolist":
         if a.ndim == 1:
             return Arr(a.shape, a.fn, a.dtype, kind="list")
